@@ -227,6 +227,111 @@ def _is_num(x):
     return isinstance(x, (int, srcgen.Decimal)) and not isinstance(x, bool)
 
 
+# ---------------------------------------------------------------------------------------------------------
+# composable slots (variants.Dataquery): outside the Coq model; the laws are evaluated on the REAL Equals
+# matrix / encodings.  A slot cannot be written in a schema language: a JSON Schema member is retyped by a
+# `retype_field` compiler pass of the pipeline configuration, the `variant_dataquery_field_unmarshal` template
+# block is supplied through `overrides_templates`, and the `cog` runtime (runtime.go, variants) committed under
+# testdata/generated/cog of the repository is added to the module.
+SLOT_UNMARSHAL_BLOCK = """{{- define "variant_dataquery_field_unmarshal" }}
+	{{- $cog := importPkg "cog" }}
+	if fields["{{ .Field.Name }}"] != nil && string(fields["{{ .Field.Name }}"]) != "null" {
+		dataquery, err := {{ $cog }}.UnmarshalDataquery(fields["{{ .Field.Name }}"], "")
+		if err != nil {
+			return err
+		}
+		resource.{{ .Field.Name|formatFieldName }} = dataquery
+	}
+{{- end }}
+"""
+
+
+def slot_scenario(ctx, verdict, n_schemas=3):
+    rng = ctx.rng
+    odir = os.path.join(ctx.scratch, "c13slot_tmpl")
+    os.makedirs(odir, exist_ok=True)
+    with open(os.path.join(odir, "dataquery_unmarshal.tmpl"), "w") as f:
+        f.write(SLOT_UNMARSHAL_BLOCK)
+    go_opts = dict(gencode.GO_OPTS_DEFAULT, overrides_templates=[odir], generate_strict_unmarshaller=False,
+                   generate_validate=False)
+    camp = gencode.Campaign(ctx, "c13slot", go_opts=go_opts)
+    plan = []
+    for k in range(n_schemas):
+        pkg = "q%03d" % k
+        extra = rng.choice([[], [("size", {"type": "integer"})], [("tags", {"type": "array", "items": {"type": "string"}})]])
+        slot_required = False        # an unset REQUIRED slot makes the generated Equals call a nil interface
+        props = {"name": {"type": "string"}, "target": {"type": "object"}}
+        props.update(dict(extra))
+        schema = {"$schema": "http://json-schema.org/draft-07/schema#", "$ref": "#/definitions/Root",
+                  "definitions": {"Root": {"type": "object", "properties": props,
+                                           "required": ["name"] + (["target"] if slot_required else [])}}}
+        sid = camp.add_schema_text(pkg, "jsonschema", json.dumps(schema, indent=1))
+        passes = os.path.join(camp.batch.in_dir, pkg + "_passes.yaml")
+        with open(passes, "w") as f:
+            f.write("passes:\n  - retype_field:\n      field: %s.Root.target\n      as:\n        kind: composable_slot\n"
+                    "        composable_slot:\n          variant: dataquery\n" % pkg)
+        cfg = camp.batch.schemas[sid][3]
+        with open(cfg, "a") as f:
+            f.write("transformations:\n  schemas: ['%s']\n" % passes)
+        plan.append((sid, [k_ for k_, _ in extra]))
+    camp.batch.generate()
+    rt = os.path.join(core.REPO, "testdata", "generated", "cog")
+    extra_files = {}
+    for rel in ("runtime.go", os.path.join("variants", "variants.go")):
+        src = open(os.path.join(rt, rel)).read().replace("github.com/grafana/cog/testdata/generated", camp.batch.package_root)
+        extra_files[os.path.join("cog", rel)] = src
+    camp.batch.build_driver(extra_files=extra_files)
+    ok = set(camp.batch.ok_sids())
+    stats = {"schemas": len(plan), "generated_and_compiled": len(ok), "jobs": 0, "pairs": 0,
+             "gen_errors": [repr(camp.batch.gen[s_])[:300] for s_, _ in plan if camp.batch.gen[s_].status != "OK"][:2],
+             "compile_errors": [str(v)[:300] for v in camp.batch.compile_errors.values()][:2]}
+    for sid, extra in plan:
+        if sid not in ok:
+            continue
+        for _ in range(3):
+            name = rng.choice(["deploys", "a", ""])
+            q1, q2 = rng.sample(["up", "down", "rate(x[5m])", ""], 2)
+            base = {"name": name}
+            if "size" in extra:
+                base["size"] = rng.randint(0, 5)
+            if "tags" in extra:
+                base["tags"] = rng.choice([[], ["x"], ["x", "y"]])
+            docs = [dict(base), dict(base, target={"expr": q1}), dict(base, target={"expr": q2}), dict(base, target=None),
+                    dict(base, target={"expr": q1, "refId": "A"})]
+            rng.shuffle(docs)
+            camp.add_job(sid, "Root", docs, meta={"kind": "composable-slot"})
+    for j in camp.jobs:
+        j["ops"] = ["std", "equals"]
+    camp.run()
+    for i in camp.live():
+        r = camp.results[i]
+        stats["jobs"] += 1
+        n = len(camp.jobs[i]["docs"])
+        encs = [x["enc"] if x["std"] == "ok" else None for x in r["res"]]
+        eq = r["eq"]
+        bad = {}
+        for a in range(n):
+            for b in range(n):
+                if encs[a] is None or encs[b] is None:
+                    continue
+                stats["pairs"] += 1
+                if eq[a][b] == "p":
+                    bad.setdefault("no_panic", (a, b))
+                elif eq[a][b] != eq[b][a]:
+                    bad.setdefault("symmetric", (a, b))
+                elif eq[a][b] == "t" and not same_mod_empty(encs[a], encs[b]):
+                    bad.setdefault("equals_implies_encode_eq_mod_empty", (a, b))
+                elif eq[a][b] == "f" and srcgen.json_same(encs[a], encs[b]):
+                    bad.setdefault("encode_eq_implies_equals", (a, b))
+            if encs[a] is not None and eq[a][a] == "f":
+                bad.setdefault("reflexive", (a, a))
+        for law, pair in bad.items():
+            verdict.propfail({"law": law, "cause": "composable-slot"},
+                             {"job": camp.job_payload(i), "observed": r, "pair": list(pair),
+                              "predicate": "the law evaluated on the observed Equals matrix / encodings (composable slots are outside the Coq model)"})
+    return stats
+
+
 def run(ctx, verdict, replay=None, model_ok=True):
     rng = ctx.rng
     thorough = ctx.tier == "thorough"
@@ -316,6 +421,8 @@ def run(ctx, verdict, replay=None, model_ok=True):
     unexplained = [{"job": camp.job_payload(i), "observed": camp.results[i],
                     "which": [k for k in ("MM_STD", "MM_STRICT", "MM_EQ", "MM_WT", "MM_SPEC") if i in ev[k]]} for i in mm[:20]]
 
+    slot_stats = slot_scenario(ctx, verdict) if not replay else {}
+    ctx.log("composable slots: " + json.dumps(slot_stats))
     # ---- coverage (measured)
     distinct, nontriv = set(), 0
     kinds, cons_hist, eq_hist = {}, {}, {"t": 0, "f": 0, "p": 0, "-": 0}
@@ -354,6 +461,7 @@ def run(ctx, verdict, replay=None, model_ok=True):
                         "docs": camp.jobs[i]["docs"], "equals_matrix": camp.results[i]["eq"],
                         "encodings": [srcgen.dumps(x["enc"]) if x["std"] == "ok" else None for x in camp.results[i]["res"]]})
     cov = {
+        "composable_slot_scenario": slot_stats,
         "evaluations": len(live),
         "equals_calls_observed": eq_hist["t"] + eq_hist["f"] + eq_hist.get("p", 0),
         "distinct_nontrivial": nontriv,
